@@ -23,10 +23,10 @@ SPEC = dict(
         dict(name="known", pkg=_PKG, test="TestKnown.*", checks=1, shards=1),
     ],
     thorough=[
-        dict(name="mem", pkg=_PKG, test="TestDurabilityMemory", checks=12000, shards=5),
-        dict(name="rocks", pkg=_PKG, test="TestDurabilityRocks", checks=6500, shards=6),
-        dict(name="l3", pkg=_PKG, test="TestDurabilityL3", checks=25000, shards=3),
-        dict(name="l1", pkg=_PKG, test="TestDurabilityL1", checks=12000, shards=2),
+        dict(name="mem", pkg=_PKG, test="TestDurabilityMemory", checks=10000, shards=5),
+        dict(name="rocks", pkg=_PKG, test="TestDurabilityRocks", checks=5500, shards=6),
+        dict(name="l3", pkg=_PKG, test="TestDurabilityL3", checks=22000, shards=3),
+        dict(name="l1", pkg=_PKG, test="TestDurabilityL1", checks=10000, shards=2),
         dict(name="known", pkg=_PKG, test="TestKnown.*", checks=1, shards=1),
     ],
 )
